@@ -683,7 +683,7 @@ class Slicer:
         return res
 
     def local(self, l, at=None):
-        key = ("L", l, at if self._multi_def(l) else None)
+        key = ("L", l, at if (self._multi_def(l) or l in self.b.defs[1]) else None)
         if key in self.memo:
             return self.memo[key]
         self.nodes += 1
@@ -734,6 +734,8 @@ class Slicer:
                 fs = [e for e in place[1:] if isinstance(e, list) and e[0] == "f"]
                 if not fs:
                     continue
+                if at is not None and bb != at and at not in b.reachable_from([bb]):
+                    continue  # this field write cannot have happened yet at the use
                 name = fs[0][2]
                 if rv["k"] == "callret":
                     val = self._call(rv["t"], bb)
@@ -1114,7 +1116,8 @@ def norm(term, depth=0):
     return term
 
 
-CHECK_WRAPPERS = ("re:::map_err$", "re:::context$", "re:::with_context$", "re:::map$", "re:::inspect_err$")
+CHECK_WRAPPERS = ("re:::map_err$", "re:::context$", "re:::with_context$", "re:::map$", "re:::inspect_err$",
+                  "re:::block_on$")
 
 
 def _is_result_of(term, body, call):
